@@ -561,3 +561,34 @@ M("C14.discard_not_counted", ["C14"], "emitter/otlp/src/client.rs",
   "        self.metrics.event_discarded.increment();\n    }", "    }", "C14.R1")
 M("C14.span_filter_metric_kind", ["C14"], "src/kind.rs",
   "KindFilter::new(Kind::Span)", "KindFilter::new(Kind::Metric)", "C14.R3") if False else None
+
+# ---- C11 -------------------------------------------------------------------------------------------
+M("C11.keep_file_or", ["C11"], "emitter/file/src/lib.rs",
+  """            file.file_size_bytes + batch.remaining_bytes <= self.max_file_size_bytes
+                && file.file_ts == file_ts""",
+  """            file.file_size_bytes + batch.remaining_bytes <= self.max_file_size_bytes
+                || file.file_ts == file_ts""", "C11.R1")
+M("C11.listing_not_reversed", ["C11"], "emitter/file/src/lib.rs",
+  "file_set.sort_by(|a, b| a.cmp(b).reverse());", "file_set.sort_by(|a, b| a.cmp(b));", "C11.R4")
+M("C11.retention_skipped_on_roll(reverse of fix c00d40e)", ["C11"], "emitter/file/src/lib.rs",
+  """            if !file_set_is_read {
+                read_file_set(&mut file_set);
+            }
+""", "", "C11.R2")
+M("C11.retention_unwrap(reverse of fix 9b04f88)", ["C11", "C08"], "emitter/file/src/lib.rs",
+  """            let Some(file_name) = self.file_set.pop() else {
+                break;
+            };
+""",
+  """            let file_name = self.file_set.pop().unwrap();
+""", ["C11.R3", "C08"])
+M("C11.name_ts_after_id", ["C11"], "emitter/file/src/lib.rs",
+  """    format!("{}.{}.{}.{}", file_prefix, ts, id, file_ext)""",
+  """    format!("{}.{}.{}.{}", file_prefix, id, ts, file_ext)""", "C11.R5")
+M("C11.retention_bound_no_room", ["C11"], "emitter/file/src/lib.rs",
+  "self.max_files.saturating_sub(1)", "self.max_files", "C11.R2")
+M("C10.remainder_only_retry(reverse of fix 8c8ee87)", ["C10"], "emitter/file/src/lib.rs",
+  """                batch.rewind();
+
+                return Err(emit_batcher::BatchError::retry(err, batch));""",
+  """                return Err(emit_batcher::BatchError::retry(err, batch));""", "C10.R8")
